@@ -800,7 +800,18 @@ def contains(ex, container, item):
 # arithmetic / concatenation
 # =============================================================================================
 
+def _unwrap_opt(ex, v, what):
+    if isinstance(v, Sym) and isinstance(v.kind, K.Opt):
+        if ex.run.decide(v.kind.is_none(v.t)):
+            raise RaiseEx(ExcVal('TypeError', origin=f'None in {what}'))
+        return Sym(v.kind.inner, v.kind.val(v.t))
+    return v
+
+
 def binop(ex, op, a, b):
+    if not isinstance(op, ast.Add):
+        a = _unwrap_opt(ex, a, type(op).__name__)
+        b = _unwrap_opt(ex, b, type(op).__name__)
     if isinstance(op, ast.Add):
         if is_str(a) and is_str(b):
             return concat_strs(ex, [a, b])
